@@ -1008,11 +1008,10 @@ pub fn run(opts: &Opts) -> i32 {
     let thorough = opts.tier == Tier::Thorough;
     let n = if opts.budget > 0 { opts.budget } else if thorough { 40_000 } else { 2_500 };
     let seed = opts.seed;
-    let (results, viol) = run_batch(n, opts.workers, move |i| job(seed, i, 16, 4));
     let mut agg = JobOut { threads_hist: vec![0; 17], site_counts: vec![0; 128], ..JobOut::default() };
-    let mut hashes: HashSet<u64> = HashSet::new();
+    let mut hashes = Distinct::new();
     let mut samples = Vec::new();
-    for (_, r) in &results {
+    let (jobs_done, viol) = run_batch_chunked(n, opts.workers, move |i| job(seed, i, 16, 4), |_, r| {
         agg.runs += r.runs;
         agg.ops += r.ops;
         agg.decisions += r.decisions;
@@ -1043,7 +1042,7 @@ pub fn run(opts: &Opts) -> i32 {
                 samples.push(s.clone());
             }
         }
-    }
+    });
     let wall = t0.elapsed().as_secs_f64();
     let mut code = 0;
     let mut violations = 0;
@@ -1097,7 +1096,7 @@ pub fn run(opts: &Opts) -> i32 {
             "runs_over_decision_budget": agg.budget_exhausted,
         }));
         extra.insert("runs_per_hour".into(), json!(((agg.runs as f64) / wall.max(1e-9) * 3600.0) as u64));
-        extra.insert("seeds".into(), json!(format!("derive({}, 0..{}) x 4 runs each", seed, results.len())));
+        extra.insert("seeds".into(), json!(format!("derive({}, 0..{}) x 4 runs each", seed, jobs_done)));
         extra.insert("real_vs_stub".into(), json!({
             "real": ["fancy_regex (whole public search API)", "regex-automata incl. its cache pool", "real OS threads, real thread-locals"],
             "stubbed": ["the OS scheduler: replaced by the seeded baton scheduler (one thread runs at a time, hand-offs only at hook yield points)", "limits of chosen searches overridden through the H2 hook"],
